@@ -359,6 +359,10 @@ def fill_form_unit():
     for p in paths:
         it = p.interp
         if p.outcome[0] == 'unsupported':
+            rep = native_fill_form()
+            if rep.get('reproduced'):
+                return [Ob(id='C18/_fill_form/subset', status=oblig.REFUTED, backend='native', function=fid, clause='NOT: the real _fill_form gives each box the text its own pdf field produces for its own line (stub forms)',
+                           solver_output=f'outside the subset ({p.outcome[1]}); refuted by the native stub-form run', witness={k: rep[k] for k in rep if k != 'reproduced'}, replay=rep)]
             return [Ob(id='C18/_fill_form/subset', status=oblig.UNDECIDED, function=fid, solver_output=p.outcome[1])]
         hyp = p.conds + p.facts
         vals, fm = it.ghost['vals'], it.ghost['fm']
@@ -461,7 +465,23 @@ def native_fill_form():
     finally:
         subprocess.run = orig
     want = {'box0': '2', 'box1': '', 'box2': 'z'}
-    return {'reproduced': got != want, 'fdf': got, 'expected': want}
+    # one line shown in two boxes with different limits: each box applies its own limit (the short one must refuse)
+    class TwoBoxes(FakeForm):
+        def pdf_fields(self):
+            return [P.TextPDFField('boxA', 'l2', max_length=25), P.TextPDFField('boxB', 'l2', max_length=3)]
+    p._values['formx.l2'] = 'zzzzz'
+    got2 = {}
+    p._create_fdf = lambda data, fn: got2.update(data)
+    subprocess.run = lambda *a, **k: None
+    try:
+        p._fill_form(TwoBoxes(), '/dev/shm/x.pdf')
+        got2 = {'written': dict(got2)}
+    except BaseException as ex:
+        got2 = {'raised': type(ex).__name__}
+    finally:
+        subprocess.run = orig
+    want2 = {'raised': 'PDFValueTooLong'}
+    return {'reproduced': got != want or got2 != want2, 'fdf': got, 'expected': want, 'two_boxes_one_line': got2, 'expected_two_boxes': want2}
 
 
 def run(tier, seed, t0):
